@@ -93,6 +93,11 @@ def run(tier, rep):
     res18, d18 = dxlib.run_dx('plain', m18, 'c02n', 'A,B1', 'ref', phases=1, deadline=300, extra=['--nme-set', '1'])
     for r in res18:
         r['key'] = r['key'] + ':nme2'
+    # a third set (small chi'_P, chi'_R: the spectrum shape then depends on the nuclear radius)
+    res18c, d18c = dxlib.run_dx('plain', m18, 'c02n', 'A,B1' if tier != 'quick' else 'A', 'ref', phases=1, deadline=300, extra=['--nme-set', '2'])
+    for r in res18c:
+        r['key'] = r['key'] + ':nme3'
+    res18 = res18 + res18c
     wcfg = window_cfgs(res)
     if tier == 'quick':
         wcfg = [w for i, w in enumerate(wcfg) if i % 4 == vlib.SEED % 4]
@@ -121,7 +126,7 @@ def run(tier, rep):
     rep.coverage['max_table_rel_diff'] = max([r.get('table_rel') or 0 for r in res + res2 if 'crashed' not in r] + [0])
     rep.assumptions += ['F77->C++ transpilation of the reference is faithful (tools/f2cxx.py; REAL evaluated in double)',
                         'CERNLIB stand-ins (GAUSS, DGMLT1/2, DIVDIF, CGAMMA) in ref/cernlib_shim.cc are independent re-implementations',
-                        'mode 18 is driven with two fixed sets of seven NMEs (chi_R != 0 and chi_R = 0) on both sides',
+                        'mode 18 is driven with three fixed sets of seven NMEs (chi_R dominating, chi_R = 0, chi_P and chi_R both small) on both sides',
                         'executions whose model-side decision margin is below tau (10x the measured table noise, >=1e-6) are counted ambiguous, not compared']
 
 
